@@ -509,6 +509,12 @@ func parsePromQLFunc(s Source, expr string, n *promParser.Call) Source {
 
 	case "absent", "absent_over_time":
 		s.Returns = promParser.ValueTypeVector
+		if s.IsDead {
+			// absent() of a query that never returns anything will always return.
+			s.IsDead = false
+			s.IsDeadReason = ""
+			s.IsDeadPosition = posrange.PositionRange{}
+		}
 		s.FixedLabels = true
 		s.IncludedLabels = nil
 		s.GuaranteedLabels = nil
